@@ -114,6 +114,8 @@ byte_buffer_rewind(ByteBuffer *b)
     memmove(b->data,
             b->data + b->offset,
             b->used - b->offset);
+    b->used -= b->offset;
+    b->offset = 0u;
 
     return 0;
 }
